@@ -56,6 +56,45 @@ def exception_class_name(raise_node):
     return d.split('.')[-1]
 
 
+def declared_spelling(expr):
+    """recognises the resolver that maps a list of attribute names onto the spelling the class declares,
+           [ {n.upper(): n for n in <mc>.attribute_names}.get(k.upper(), k)  for k in <KEYS> ]        (dict(...) of pairs likewise)
+    and returns (<KEYS>, <mc>); the result names the same attributes in the same order, so for role questions it IS <KEYS>.
+    Anything else -> None."""
+    if not (isinstance(expr, ast.ListComp) and len(expr.generators) == 1 and not expr.generators[0].ifs and isinstance(expr.generators[0].target, ast.Name)):
+        return None
+    k = expr.generators[0].target.id
+    e = expr.elt
+    if not (isinstance(e, ast.Call) and isinstance(e.func, ast.Attribute) and e.func.attr == 'get' and len(e.args) == 2 and not e.keywords):
+        return None
+    a0, a1 = e.args
+    if not (isinstance(a1, ast.Name) and a1.id == k and is_case_normalised(a0) and isinstance(a0.func.value, ast.Name) and a0.func.value.id == k):
+        return None
+    norm_ = a0.func.attr
+    d = e.func.value
+    comp = None
+    if isinstance(d, ast.DictComp) and len(d.generators) == 1:
+        comp, key_e, val_e = d.generators[0], d.key, d.value
+    elif isinstance(d, ast.Call) and dotted(d.func) == 'dict' and len(d.args) == 1 and isinstance(d.args[0], (ast.GeneratorExp, ast.ListComp)) and \
+            len(d.args[0].generators) == 1 and isinstance(d.args[0].elt, ast.Tuple) and len(d.args[0].elt.elts) == 2:
+        comp, key_e, val_e = d.args[0].generators[0], d.args[0].elt.elts[0], d.args[0].elt.elts[1]
+    if comp is None or comp.ifs or not isinstance(comp.target, ast.Name):
+        return None
+    n = comp.target.id
+    if not (isinstance(val_e, ast.Name) and val_e.id == n and is_case_normalised(key_e) and key_e.func.attr == norm_ and
+            isinstance(key_e.func.value, ast.Name) and key_e.func.value.id == n):
+        return None
+    it = comp.iter
+    if not (isinstance(it, ast.Attribute) and it.attr == 'attribute_names'):
+        return None
+    return expr.generators[0].iter, it.value
+
+
+def strip_declared(expr):
+    d = declared_spelling(expr)
+    return d[0] if d else expr
+
+
 def resolve_locals(fn, expr, pure_only=True):
     '''expr with once-assigned pure locals of fn replaced by their values, in expression normal form: for rules that only ask
     WHICH values reach a place (not when they are computed)'''
@@ -184,6 +223,7 @@ class AssocModel(object):
                     raise AnalysisError('%s: Association.%s is not one of the created links' % (loc(ass_call), field))
                 self.links[field] = links[expr.id]
             elif field in ('source_keys', 'target_keys', 'rel_id'):
+                expr = strip_declared(resolve_locals(fn, expr)) if not isinstance(expr, ast.Name) or expr.id not in param_names(fn) else expr
                 self.keys[field] = expr.id if isinstance(expr, ast.Name) else src(expr)
         if set(self.links) != {'source_link', 'target_link'}:
             raise AnalysisError('%s: Association(...) does not receive both links' % loc(ass_call))
@@ -200,7 +240,7 @@ class AssocModel(object):
             if isinstance(lv, ast.Name):
                 for field, info in self.links.items():
                     if info['var'] == lv.id:
-                        self.key_maps[field] = (src(env['_A']), src(env['_B']))
+                        self.key_maps[field] = (src(strip_declared(env['_A'])), src(strip_declared(env['_B'])))
 
     def link_role(self, field, end):
         return self.links[field][end]
